@@ -748,13 +748,31 @@ def gen_model_history(r, name):
         L.append("endaccess %d" % a)
     for k in range(3):
         L += ["vsdetach %d" % k, "vdetach %d" % k]
+    if ro and r.random() < 0.6:
+        # a read-only SD session on the same file: the SD guard-structure model (SDModel) against the library
+        L.append("sdstart 0 0 %d" % r.choice([1, 1, 1]))
+        for j in range(min(3, len(inv.sds))):
+            L.append("sdselect %d 0 %d" % (j, j))
+        for _ in range(r.randrange(4, 16)):
+            d = r.randrange(3)
+            L.append(r.choice([
+                "sdcreate %d 0 %s %d 1 4" % (d, nm(r, "ns"), r.randrange(4)), "sdsetdimname %d 0 %s" % (d, r.choice(["dn0", "fakeDim0", nm(r, "dn")])),
+                "sdsetrange %d 3" % d, "sdsetattr 1 %d 0 %s 0 2 1" % (d, r.choice(["sa0", "sa1", nm(r, "at")])), "sdsetattr 0 0 0 fattr 0 2 1",
+                "sdsetattr 2 %d 0 da0 0 2 1" % d, "sdsetdatastrs %d" % d, "sdsetcal %d" % d, "sdsetfillvalue %d 3" % d, "sdsetdimstrs %d 0" % d,
+                "sdsetdimscale %d 0 2 1" % d, "sdsetdimval_comp %d 0 1" % d, "sdwritedata %d 5 0 0" % d, "sdwritedim %d 0 4" % d,
+                "sdsetexternalfile %d 7 0" % d, "sdsetcompress %d 1" % d, "sdsetchunk %d 0" % d, "sdsetnbitdataset %d" % d,
+                "sdwritechunk %d 3" % d, "sdsetfillmode 0 %d" % r.choice([0, 256]), "sdgetdimscale %d 0" % d, "sdreaddata %d" % d,
+                "sdinfo %d" % d, "sdfileinfo 0", "sdselect %d 0 %d" % (d, r.randrange(4)), "sdendaccess %d" % d]))
+        L.append("sdend 0")
     L += ["hclose 0", "closeall", "check"]
     return L
 
 
 RC_DECISIVE = set("""startaccess startread startwrite write trunc setlength putelement dupdd deldd reuse hlcreate hxcreate hccreate
 hmccreate hlconvert hsync hcache vattach vsattach vattachn vsattachn vsetname vsetclass vaddtagref vdeletetagref vssetname vssetclass
-vswrite vsdefinefields vdeleten vsdeleten appendable endaccess vdetach vsdetach hclose hopen""".split())
+vswrite vsdefinefields vdeleten vsdeleten appendable endaccess vdetach vsdetach hclose hopen
+sdstart sdend sdcreate sdsetdimname sdsetrange sdsetattr sdsetdatastrs sdsetcal sdsetfillvalue sdsetdimstrs sdsetdimscale sdsetdimval_comp
+sdwritedata sdwritedim sdsetexternalfile sdsetcompress sdsetchunk sdsetnbitdataset sdwritechunk sdsetfillmode""".split())
 
 
 def run_model(ctx):
